@@ -28,6 +28,9 @@ var solverTable = []solverCfg{
 	{"z3-new", func(f string, s, seed int) []string {
 		return []string{"z3-new", fmt.Sprintf("-T:%d", s), fmt.Sprintf("smt.random_seed=%d", seed), fmt.Sprintf("sat.random_seed=%d", seed), f}
 	}},
+	{"z3-new/seed2", func(f string, s, seed int) []string {
+		return []string{"z3-new", fmt.Sprintf("-T:%d", s), fmt.Sprintf("smt.random_seed=%d", seed+101), fmt.Sprintf("sat.random_seed=%d", seed+101), "smt.arith.random_initial_value=true", f}
+	}},
 	{"z3", func(f string, s, seed int) []string {
 		return []string{"z3", fmt.Sprintf("-T:%d", s), fmt.Sprintf("smt.random_seed=%d", seed), f}
 	}},
@@ -67,9 +70,9 @@ func solvePortfolio(script string, secs, seed int) SolveResult {
 	defer os.Remove(f.Name())
 	res := SolveResult{Tried: map[string]string{}, Verdict: "unknown"}
 	t0 := time.Now()
-	order := []int{0, 1, 2}
+	order := []int{0, 2, 3, 1}
 	if seed%3 == 1 {
-		order = []int{0, 2, 1}
+		order = []int{0, 3, 2, 1}
 	}
 	head := secs
 	if head > 3 {
@@ -86,7 +89,7 @@ func solvePortfolio(script string, secs, seed int) SolveResult {
 	type r struct {
 		name, v, out string
 	}
-	ch := make(chan r, 3)
+	ch := make(chan r, 4)
 	for _, i := range order {
 		sc := solverTable[i]
 		go func() {
@@ -94,7 +97,7 @@ func solvePortfolio(script string, secs, seed int) SolveResult {
 			ch <- r{sc.name, v, out}
 		}()
 	}
-	for k := 0; k < 3; k++ {
+	for k := 0; k < len(order); k++ {
 		x := <-ch
 		res.Tried[x.name] = x.v
 		if x.v == "unsat" || x.v == "sat" {
